@@ -818,7 +818,7 @@ class StaticVector : public StaticVectorBase<T, SizeType> {
   template <class... Args>
   iterator emplace(const_iterator position, Args &&...args) {
     assert(position >= this->cbegin() && position <= this->cbegin() + this->size());
-    GrowingPolicy::Check(this->size() + 1U, this->capacity());
+    GrowingPolicy::Check(static_cast<uintmax_t>(this->size()) + 1U, this->capacity());
     iterator pos = const_cast<iterator>(position);
     emplace_n(pos, this->size() - (pos - this->begin()), std::forward<Args>(args)...);
     this->incrSize();
@@ -827,7 +827,7 @@ class StaticVector : public StaticVectorBase<T, SizeType> {
 
   template <class... Args>
   reference emplace_back(Args &&...args) {
-    GrowingPolicy::Check(this->size() + 1U, this->capacity());
+    GrowingPolicy::Check(static_cast<uintmax_t>(this->size()) + 1U, this->capacity());
     iterator endIt = this->begin() + this->size();
     amc::construct_at(endIt, std::forward<Args &&>(args)...);
     this->incrSize();
@@ -913,7 +913,7 @@ class DynamicVector : public DynamicVectorBaseTypeDispatcher<T, Alloc, SizeType,
       amc::construct_at(e.ptr(), std::forward<Args &&>(args)...);
       SizeType idx = static_cast<SizeType>(position - this->begin());
       try {
-        this->grow(this->size() + 1U);
+        this->grow(static_cast<uintmax_t>(this->size()) + 1U);
       } catch (...) {
         amc::destroy_at(e.ptr());
         throw;
@@ -946,7 +946,7 @@ class DynamicVector : public DynamicVectorBaseTypeDispatcher<T, Alloc, SizeType,
       ElemStorage<T> e;
       amc::construct_at(e.ptr(), std::forward<Args &&>(args)...);
       try {
-        this->grow(this->size() + 1U);
+        this->grow(static_cast<uintmax_t>(this->size()) + 1U);
       } catch (...) {
         amc::destroy_at(e.ptr());
         throw;
